@@ -1,6 +1,9 @@
-import AlgoVerif.Model.C18
-import AlgoVerif.Spec.C18
-/-! Line-protocol component for C18 (values are `Int`, `equal` is `==`). -/
+import AlgoVerif.Model.C18Run
+/-! Line-protocol component for C18 (values are `Int`, `equal` is `==`).
+
+Every op line is parsed into the `Op` / `SoftOp` of `Model/C18Run.lean` and executed with
+`Queue.step` / `Stack.step` / `SoftQueue.step` — the very functions the theorems of
+`Props/C18.lean` are about. -/
 namespace AlgoVerif.C18.Driver
 open AlgoVerif AlgoVerif.C18
 
@@ -14,113 +17,66 @@ def showOptPair : Option (Int × Int) → String
   | some (v, i) => s!"ok some {v} {i}"
   | none => "ok none -1"
 
-/-- run the ops of one case; after a `panic`/`diverge` the remaining ops print `skip`. -/
-def runQueue (block : Nat) (ops : List String) : List String := Id.run do
-  let mut q : Queue Int := Queue.new block
+def render : Out Int → String
+  | .unit => "ok"
+  | .val o => showOpt o
+  | .valIdx o => showOptPair o
+  | .bool b => s!"ok {showBool b}"
+  | .int n => s!"ok {n}"
+  | .list l => s!"ok {showIntList l}"
+
+/-- `add`/`rem` are the op names of the component (`enq`/`deq` or `push`/`pop`) -/
+def parseOp (add rem : String) (ws : List String) : Option (Op Int) :=
+  match ws with
+  | [w, v] =>
+    if w = add then (parseInt? v).map Op.add
+    else if w = "contains" then (parseInt? v).map Op.contains
+    else none
+  | [w] =>
+    if w = rem then some .remove
+    else if w = "peek" then some .peek
+    else if w = "size" then some .size
+    else if w = "isempty" then some .isEmpty
+    else none
+  | _ => none
+
+def parseSoftOp (ws : List String) : Option (SoftOp Int) :=
+  match ws with
+  | ["enq", v] => (parseInt? v).map SoftOp.enq
+  | ["contains", v] => (parseInt? v).map SoftOp.contains
+  | ["deq"] => some .deq
+  | ["peek"] => some .peek
+  | ["size"] => some .size
+  | ["isempty"] => some .isEmpty
+  | ["values"] => some .values
+  | _ => none
+
+/-- run the ops of one case on a Model given by its `step`; after a `panic`/`diverge` the remaining
+ops print `skip`. -/
+def runWith {σ ι : Type} (parse : List String → Option ι) (step : σ → ι → Outcome (σ × Out Int))
+    (init : σ) (ops : List String) : List String := Id.run do
+  let mut s := init
   let mut dead := false
   let mut out : Array String := #[]
   for line in ops do
     if dead then out := out.push "skip"; continue
-    match words line with
-    | ["enq", v] =>
-      match parseInt? v with
-      | some v =>
-        match q.enqueue 0 v with
-        | .ok q' => q := q'; out := out.push "ok"
-        | .panic => dead := true; out := out.push "panic"
-        | .diverge => dead := true; out := out.push "hang"
-      | none => out := out.push "bad-op"
-    | ["deq"] =>
-      match q.dequeue with
-      | .ok (q', r) => q := q'; out := out.push (showOpt r)
+    match parse (words line) with
+    | none => out := out.push "bad-op"
+    | some op =>
+      match step s op with
+      | .ok (s', o) => s := s'; out := out.push (render o)
       | .panic => dead := true; out := out.push "panic"
       | .diverge => dead := true; out := out.push "hang"
-    | ["peek"] =>
-      match q.peek with
-      | .ok r => out := out.push (showOpt r)
-      | .panic => dead := true; out := out.push "panic"
-      | .diverge => dead := true; out := out.push "hang"
-    | ["contains", v] =>
-      match parseInt? v with
-      | some v =>
-        match q.contains eqI v with
-        | .ok b => out := out.push s!"ok {showBool b}"
-        | .panic => dead := true; out := out.push "panic"
-        | .diverge => dead := true; out := out.push "hang"
-      | none => out := out.push "bad-op"
-    | ["size"] => out := out.push s!"ok {q.listSize}"
-    | ["isempty"] => out := out.push s!"ok {showBool (q.listSize == 0)}"
-    | _ => out := out.push "bad-op"
   return out.toList
 
-def runStack (block : Nat) (ops : List String) : List String := Id.run do
-  let mut s : Stack Int := Stack.new block
-  let mut dead := false
-  let mut out : Array String := #[]
-  for line in ops do
-    if dead then out := out.push "skip"; continue
-    match words line with
-    | ["push", v] =>
-      match parseInt? v with
-      | some v =>
-        match s.push 0 v with
-        | .ok s' => s := s'; out := out.push "ok"
-        | .panic => dead := true; out := out.push "panic"
-        | .diverge => dead := true; out := out.push "hang"
-      | none => out := out.push "bad-op"
-    | ["pop"] =>
-      match s.pop with
-      | .ok (s', r) => s := s'; out := out.push (showOpt r)
-      | .panic => dead := true; out := out.push "panic"
-      | .diverge => dead := true; out := out.push "hang"
-    | ["peek"] =>
-      match s.peek with
-      | .ok r => out := out.push (showOpt r)
-      | .panic => dead := true; out := out.push "panic"
-      | .diverge => dead := true; out := out.push "hang"
-    | ["contains", v] =>
-      match parseInt? v with
-      | some v =>
-        match s.contains eqI v with
-        | .ok b => out := out.push s!"ok {showBool b}"
-        | .panic => dead := true; out := out.push "panic"
-        | .diverge => dead := true; out := out.push "hang"
-      | none => out := out.push "bad-op"
-    | ["size"] => out := out.push s!"ok {s.listSize}"
-    | ["isempty"] => out := out.push s!"ok {showBool (s.listSize == 0)}"
-    | _ => out := out.push "bad-op"
-  return out.toList
+def runQueue (block : Nat) (ops : List String) : List String :=
+  runWith (parseOp "enq" "deq") (Queue.step 0 eqI) (Queue.new block) ops
 
-def runSoft (ops : List String) : List String := Id.run do
-  let mut q : SoftQueue Int := SoftQueue.new
-  let mut dead := false
-  let mut out : Array String := #[]
-  for line in ops do
-    if dead then out := out.push "skip"; continue
-    match words line with
-    | ["enq", v] =>
-      match parseInt? v with
-      | some v => let (q', i) := q.enqueue v; q := q'; out := out.push s!"ok {i}"
-      | none => out := out.push "bad-op"
-    | ["deq"] =>
-      match q.dequeue with
-      | .ok (q', r) => q := q'; out := out.push (showOptPair r)
-      | .panic => dead := true; out := out.push "panic"
-      | .diverge => dead := true; out := out.push "hang"
-    | ["peek"] =>
-      match q.peek with
-      | .ok r => out := out.push (showOptPair r)
-      | .panic => dead := true; out := out.push "panic"
-      | .diverge => dead := true; out := out.push "hang"
-    | ["contains", v] =>
-      match parseInt? v with
-      | some v => out := out.push s!"ok {q.contains eqI v}"
-      | none => out := out.push "bad-op"
-    | ["size"] => out := out.push s!"ok {q.size}"
-    | ["isempty"] => out := out.push s!"ok {showBool q.isEmpty}"
-    | ["values"] => out := out.push s!"ok {showIntList q.values}"
-    | _ => out := out.push "bad-op"
-  return out.toList
+def runStack (block : Nat) (ops : List String) : List String :=
+  runWith (parseOp "push" "pop") (Stack.step 0 eqI) (Stack.new block) ops
+
+def runSoft (ops : List String) : List String :=
+  runWith parseSoftOp (SoftQueue.step eqI) SoftQueue.new ops
 
 def runCase (hdr : List String) (ops : List String) : List String :=
   match headerGet hdr "comp" with
